@@ -68,7 +68,7 @@ func (a *vpC20View) equal(b *vpC20View) string {
 func TestVP_C20_round_links(t *testing.T) {
 	c := kit.New(t, "C20", "rapid: a real node with 7 chains; steps = grow a chain (certified snapshot through the finalization path, optionally with its own round transition) | attempt a round start (finalization-path and strict checks) | attempt an empty-head reference update (strict and not), with references drawn from {correct self + any known final round of another chain (current or older), external = a final round of the chain itself, unknown hash, wrong self}; oracle: success => stored head number is exactly one higher (round start) or unchanged (update), self reference equals the independently recomputed hash of the previous round's snapshot set, the external reference names a known final round of a different chain, stored link never decreases and equals the in-memory link; rejection (error / nil) => stored round, links and in-memory chain state identical to before; a panic from the store's assertions is a violation (references are peer supplied); non-trivial = >=2 successful transitions on >=2 chains and >=1 rejected stale/self/unknown; distinct by trace")
 	c.Require("start-ok", "update-ok", "reject-stale", "reject-self", "reject-unknown", "reject-wrong-self", "dummy-external", "strict", "nontrivial")
-	kit.SetChecks(kit.N(60, 1500))
+	kit.SetChecks(kit.N(250, 1500))
 	rapid.Check(t, func(t *rapid.T) {
 		e := vpC16Start("c20")
 		defer e.Close()
@@ -105,6 +105,12 @@ func TestVP_C20_round_links(t *testing.T) {
 				e.seq++
 				tx := e.net.BTCDeposit(common.NewInteger(1), 0, fmt.Sprintf("0xc20-%d", e.seq), e.seq)
 				e.clock += uint64(rapid.IntRange(1, 900).Draw(t, "dt_ms")) * uint64(time.Millisecond)
+				if rapid.IntRange(0, 7).Draw(t, "jump") == 0 {
+					// hours pass: chains that do not grow fall behind, so that
+					// references to their rounds become too old for the strict rules
+					e.clock += uint64(rapid.IntRange(5, 9).Draw(t, "jump_h")) * uint64(time.Hour)
+					classes["time-jump"] = true
+				}
 				newRound := false
 				if cache := chain.State.CacheRound; len(cache.Snapshots) > 0 {
 					start, _ := cache.Gap()
